@@ -185,7 +185,7 @@ because the version is already finalized. -/
 def badgerRestoreClasses (n bi : Nat) : List String :=
   let fin2 := 2 + 4 * n + 2
   if bi < fin2 then ["old+retry-ok", "mid+retry-ok"]
-  else if bi ≤ fin2 + 1 then ["mid+retry-fails"]
+  else if bi ≤ fin2 + 1 then ["finalized-damaged"]
   else ["new"]
 
 /-- What the model predicts an observer sees after a crash at boundary `bi` of a successful
@@ -196,7 +196,7 @@ def badgerCrashClasses (kind : String) (bi : Nat) (loneNonEmpty : Bool) : List S
   | _, 0 => ["old+retry-ok"]
   | "commit", 1 => ["old+retry-ok"]
   | "finalize", 1 => ["old+retry-ok", "mid+retry-ok"]
-  | "prune", 1 => if loneNonEmpty then ["mid+retry-fails"] else ["old+retry-ok", "mid+retry-fails"]
+  | "prune", 1 => if loneNonEmpty then ["mid+retry-ok"] else ["old+retry-ok", "mid+retry-ok"]
   | _, _ => ["new"]
 
 end OasisModel.NodeDB.Crash
